@@ -1,6 +1,9 @@
 ---------------------------- MODULE Trace_Threads ----------------------------
 (* Trace validation for C09 (probe runs): one line per load phase.           *)
 (*   alive    : after the load a sentinel passes through every listener      *)
+(*              (including the one whose only backend came and went)         *)
+(*   churn_stuck : a membership change (resolver outcome -> add / remove)    *)
+(*              did not return within 30 s                                   *)
 (*   overlap  : brackets of two threads on the learnt-route table overlapped  *)
 (*   dup      : a request reached more than one backend                       *)
 (*   missing / noresp / route_missing : a request did not reach a backend /   *)
@@ -12,7 +15,8 @@ EXTENDS Integers, Sequences, TLC, Json, IOUtils
 Trace == ndJsonDeserialize(IOEnv.TRACE_FILE)
 VARIABLE l
 Verdict(e) ==
-    IF ~e.alive THEN "P:C09:proxy-deadlocked-or-stalled-under-load"
+    IF e.churn_stuck THEN "P:C09:backend-membership-change-never-completed"
+    ELSE IF ~e.alive THEN "P:C09:proxy-deadlocked-or-stalled-under-load"
     ELSE IF e.overlap > 0 THEN "P:C09:two-threads-inside-the-learnt-route-table-at-once"
     ELSE IF e.dup > 0 THEN "P:C09:request-delivered-to-more-than-one-backend"
     ELSE IF ~e.churn /\ e.missing > 0 THEN "P:C09:request-lost"
